@@ -45,6 +45,9 @@ func main() {
 				c.LoadReplay(os.Args[i+1])
 			}
 		}
+		if c.Replay == "" {
+			c.ClearReplays()
+		}
 		f(c)
 		c.Finish()
 	case "child":
